@@ -10,27 +10,42 @@ ENTRY = {'coq_dir': 'C08',
  'rule': 'online-generated histories against a real TransportService (cfg(verif) wrapper) with real ConnectionHandles whose command receivers the '
          'harness owns: 1-3 peers, <= 2 overlapping connections per peer (10 % of the cases allow a third, 8 % inject answers for unknown ids / '
          'closes of unknown connections: outside the environment assumption, diffed but not judged), open_substream calls, opened/failure answers on '
-         "either connection, inbound substreams, other protocols' senders, substream drops, draws from the shared id counter; 8-60 ops (10-120 "
-         'thorough); plus cases/25 real-time cases (T = 100/300/500 ms on a 200 ms grid) with keep-alive downgrades. After every op: emitted '
-         "TransportEvents, open_substream result, commands seen on each connection's channel, Active->Inactive flips, and a dump (per peer "
-         'primary/secondary id and active flag, next substream id, tracked keys, number of armed sleeps, per channel whether a strong sender exists) '
-         'are compared with the extracted model; plus cases/3 report-level cases: the REAL ProtocolSet (one per connection) reporting substream '
-         'outcomes / established / closed into SMALL protocol channels (capacity 1-4) that the harness drains only when the case says so, the report '
-         "futures running as runtime tasks (polled when woken, as the connection loop's await is); the result of every report (completed / waiting / "
-         'error), the exact events each protocol receives, which waiting reports complete, and the queue lengths are compared with the model; plus '
-         'cases/5 composed cases: real ProtocolSets (one per connection) feed ONE real TransportService through its real event channel built with '
-         'capacity 1 (reports wait for room as runtime tasks, the service consumes at most one event per poll, open_substream commands are read off '
-         'the real ProtocolSet); the trace is a report-level case+trace and a service-level case+trace whose inputs are the delivered events, and '
-         "must satisfy both oracles; report-level cases may kill a protocol's receiver (known class 1 = F-C07b), open_substream may meet a full "
-         'command channel (ChannelClogged), the id counter may start a few below 2^64 and wrap; non-trivial = trace of >= 40 numbers; distinct = '
-         'distinct (case, trace) pairs',
+         "either connection, inbound substreams, other protocols' senders, substream drops, draws from the shared id counter, force_close "
+         '(optionally with a full primary / secondary command channel), dial / dial_address / add_known_address (must leave the service untouched); '
+         '8-60 ops (10-120 thorough); plus cases/25 real-time cases (T = 100/300/500 ms on a 200 ms grid) with keep-alive downgrades. After every '
+         "op: emitted TransportEvents, open_substream result, commands seen on each connection's channel, Active->Inactive flips, and a dump (per "
+         'peer primary/secondary id and active flag, next substream id, tracked keys, number of armed sleeps, per channel whether a strong sender '
+         'exists) are compared with the extracted model; plus cases/3 report-level cases: the REAL ProtocolSet (one per connection) reporting '
+         'substream outcomes / established / closed into SMALL protocol channels (capacity 1-4) that the harness drains only when the case says so, '
+         "the report futures running as runtime tasks (polled when woken, as the connection loop's await is); the result of every report (completed "
+         '/ waiting / error), the exact events each protocol receives, which waiting reports complete, and the queue lengths are compared with the '
+         'model; plus cases/5 composed cases: real ProtocolSets (one per connection) feed ONE real TransportService through its real event channel '
+         'built with capacity 1 (reports wait for room as runtime tasks, the service consumes at most one event per poll, open_substream commands '
+         'are read off the real ProtocolSet); the trace is a report-level case+trace and a service-level case+trace whose inputs are the delivered '
+         "events, and must satisfy both oracles; report-level cases may kill a protocol's receiver (established/closed must still reach every live "
+         'protocol: pins fix 2c7c81a), open_substream may meet a full command channel (ChannelClogged), the id counter may start a few below 2^64 '
+         'and wrap; plus cases/4 multi-service cases (kind 5): 2-3 real TransportServices with their own keep-alive flags and timeouts and ONE '
+         'shared substream-id counter over real ProtocolSets (one per connection, command channel of capacity 1/2/4/256): '
+         'report_connection_established hands every service its clone of the real ConnectionHandle, the harness is the connection task '
+         '(ProtocolSet::next() takes the commands, it holds their permits, answers through report_substream_open(_failure) under the main or the '
+         'fallback name, decides the lifetime permit of an inbound substream from the REAL protocols_with_keep_alives() table and of an outbound one '
+         "from the command's keep_alive), bursts of opens fill the command channel (ChannelClogged); compared per op: every service's events, the "
+         "result of next() (command of which service / ForceClose / None / Pending), every service's view, tracked keys and armed sleeps, the "
+         'counter, per connection whether a strong sender exists; judged by an oracle on the trace alone (per-service stream grammar, ids increasing '
+         'across services, the command taken is the oldest queued open of that connection, accepted only while the channel has room); plus max(10, '
+         'cases/4) name-table cases (kind 6): a real ProtocolSet::new over 1-5 protocols with 0-3 fallback names and mixed keep-alive flags, read '
+         'back: protocols_with_keep_alives() and, per name, where report_substream_open delivers and under which names; non-trivial = trace of >= 40 '
+         'numbers; distinct = distinct (case, trace) pairs',
  'trusted_base': ["environment assumption of the theorems: connection ids are fresh and at most two connections per peer are open at a time (C06's "
                   'guarantee), closed/substream notifications refer to an open connection (per-connection FIFO of the connection task), answers '
                   'refer to an open request',
                   'atomic-handler abstraction: one input per poll_next; several queued events drained in one poll before the timers are looked at '
                   'are modelled as consecutive polls at the same instant',
                   'the harness plays the connection task and the protocol (holds permits of opens in flight, answers them, keeps/drops substreams); '
-                  'SubstreamOpened carries a real tcp::Substream over a stream of a parked yamux connection'],
+                  'SubstreamOpened carries a real tcp::Substream over a stream of a parked yamux connection',
+                  'multi-service stream: report_connection_established / _closed are consumed by all services within the same step (per-protocol '
+                  'delivery at different times is the subject of the report-level streams); after every op all services are polled to quiescence in '
+                  'index order'],
  'level_text': 'Proof: for every feasible history (any peers, any interleaving of <= 2 overlapping connections per peer, opens, answers, polls) the '
                'per-peer event stream of the model is (Established (SubstreamOpened|OpenFailure)* Closed)* — alternation and substream scope —, the '
                '(primary, secondary) view equals the open connections in establishment order at every step, returned substream ids are strictly '
@@ -43,16 +58,30 @@ ENTRY = {'coq_dir': 'C08',
                'DEFAULT_CHANNEL_SIZE); once the answer event reaches the service after the open, the open is resolved: answered exactly once or its '
                'connection closed; the substream-id counter is modelled modulo 2^64 (usize): ids are unique in every history that draws at most 2^64 '
                'of them, and strictly increasing while the counter does not wrap (the at-most-once theorems carry that no-wrap hypothesis); '
-               'ChannelClogged (full command channel) draws an id, puts nothing in flight and issues no command; with a dead protocol '
-               'report_connection_established fails after having told exactly the live protocols polled before it whose channel had room, and no '
-               'closed event is ever produced for that connection (known class 1, F-C07b); a counterexample shows the two-per-peer assumption is '
-               'needed. The model is tied to transport_service.rs / connection.rs by a per-operation differential run with state dumps.',
+               'ChannelClogged (full command channel) draws an id, puts nothing in flight and issues no command; with dead protocols in the table '
+               '(fix 2c7c81a) report_connection_established tells every live protocol exactly once and never fails, a later closed reaches exactly '
+               'the live protocols, and every protocol alive at the end has been handed exactly the accepted established/closed reports of the '
+               'history, in order (paired); the pre-fix behaviour is kept as a refuted variant with its witness; a counterexample shows the '
+               'two-per-peer assumption is needed. Outside the contract: ConnectionEstablished/ConnectionClosed alternate per peer for EVERY history '
+               'from every state (no feasibility assumption); the only panic site (debug_assert in on_connection_closed) is reached exactly by a '
+               'closed notification for a peer without a context, never inside the contract; a third connection is ignored without touching contexts '
+               'or tracker; a closed notification with an unknown id empties the secondary slot. force_close is invisible to the service state, its '
+               'ForceClose commands go only to open connections of the peer, PeerDoesntExist exactly for an unconnected peer, Ok only with the '
+               'command to the primary. COMPOSITION (coq/Ts/Multi.v: N services with own flags/timeouts, shared bounded FIFO command channel per '
+               'connection = ProtocolSet::rx behind the ConnectionHandles/Permits, shared id counter, ChannelClogged derived from the queue, next() '
+               "= None iff queue empty and no strong sender): every component keeps every single-service invariant, so each service's stream is "
+               "well-formed for every feasible history of the composition; each service's view of a channel equals the shared channel exactly (the "
+               "single-service model's environment variable is discharged); ids returned to all services are strictly increasing in call order (no "
+               'reuse across protocols); the command channel loses, duplicates and reorders nothing (taken ++ queued = issued). The model is tied to '
+               'transport_service.rs / connection.rs / protocol_set.rs by per-operation differential runs with state dumps.',
  'level_note': 'Trusted: Coq kernel, extraction, harness and hooks, the environment assumption (discharged by C06 for the connection count), the '
                'atomic-handler abstraction. That the connection task answers every OpenSubstream command (tcp/connection.rs) is an explicit '
-               "hypothesis of C08_open_answered, not proved here (C07's side). The poll order of report_connection_established is the iteration "
-               'order of a HashMap: the harness reads it off the same table and writes it into the case (stored cases are re-masked per run). The '
+               "hypothesis of C08_open_answered, not proved here (C07's side). The poll order of report_connection_established (a HashMap iteration "
+               'order) no longer matters since fix 2c7c81a; the harness still writes it into the case for the pre-fix variant of the model. The '
                'composed stream uses capacity 1 so that every consumed event is observable on its own; larger capacities are covered by the '
-               'report-level stream only.',
+               'report-level stream only. In the composition the connection-level events reach all services in the same step. dial / dial_address / '
+               'add_known_address are only checked to leave the service untouched (their effect belongs to C05 / C10). ConnectionHandle::downgrade '
+               'panicking on a second report_connection_established of the same ProtocolSet is not modelled (every transport calls it once).',
  'assumptions': ['at most two open connections per peer, fresh connection ids (C06)',
                  'per-connection FIFO: no substream/closed notification for a connection before its established or after its closed notification',
                  'HashMap / FuturesUnordered iteration order is not observable (dumps and downgrade lists are sorted)']}
